@@ -201,7 +201,13 @@ def law_obs(maxlen, timeout):
 
     def h2(a: U, b: U) -> bool:
         return laws2(a, b)
-    ml = 1 if maxlen <= 2 else 2
+    ml = 1
+    if maxlen > 2:
+        def h2s(a: str, b: str) -> bool:
+            return laws2(a, b)
+        obs.append(Ob('c09.laws[text pairs]', h2s, pre=lambda a, b: len(a) <= 2 and len(b) <= 2 and in_alpha(a) and in_alpha(b),
+                      witness=[('a', 'B'), ('1', '10'), ('', 'a'), ('Tr', 'tR')], timeout=timeout, cost=60, family='c09.laws',
+                      bounds=f'a, b: str(len <= 2, alphabet {AL!r}): trichotomy, <=/>=/<> derived, a<b iff b>a, = symmetric', show=lambda a, b: f'a={a!r} b={b!r}'))
     obs.append(Ob('c09.laws[pairs]', h2, pre=lambda a, b: (not isinstance(a, str) or (len(a) <= ml and in_alpha(a))) and (not isinstance(b, str) or (len(b) <= ml and in_alpha(b))),
                   witness=[(1, 'a'), ('a', True), (True, 1), ('1', 5), ('', 0), ('', False), ('TRUE', True)], timeout=timeout, cost=60, family='c09.laws',
                   bounds=f'a, b over Union[int, str(len <= {ml}, alphabet {AL!r}), bool] (type by forking): trichotomy, <=/>=/<> derived, a<b iff b>a, = symmetric',
